@@ -17,9 +17,10 @@ CLAIMED = {
  'C02': dict(
     text="Verus proves days_to_wday == (d+1) mod 7 (0=Sunday, day 719162 is Thursday) for all i32 days, days_to_doy == before_month+day of "
          "date_of(d), validate_doy / year_doy_to_days / set_day_of_year accept exactly 1..=year_len within the documented range and land on "
-         "before_year(y)+n-1, and the Date/DateTime getters read those of the local day. NOT covered: the ISO week formula days_to_wyear and "
-         "the quarter expression (only reachable through formatting).",
-    note=TB + "ISO week-of-year (days_to_wyear) and the w/q/e/D format arms are outside this check.", ref="5 C02"),
+         "before_year(y)+n-1, the Date/DateTime getters read those of the local day, and days_to_wyear (format symbol w) == ISO-8601 week "
+         "defined by the Thursday of the week (lemma_wyear: Tondering's formula against that definition, all days). NOT covered: the quarter "
+         "expression and the e/D/w/q format arms' rendering (only reachable through formatting).",
+    note=TB + "the q/e/D/w format arms themselves (which value is rendered at which width) are outside this check.", ref="5 C02"),
  'C03': dict(
     text="Verus proves secs_to_days_nanos / days_nanos_to_secs / from_seconds / as_seconds / from_timestamp / timestamp (Date and DateTime) "
          "against d*86400 + n/1e9 == s for all i64 seconds: round trip, timestamp 0 == day 719162 00:00, Ok iff in range; from_timestamp in two "
@@ -64,6 +65,20 @@ CLAIMED = {
          "local instant to the second is unrepresentable: variants A/B), as_offset (instant moves by minus the offset), get_offset, and every "
          "getter of DateTime and Time == the field of the instant shifted by the offset, for all Fixed offsets in range.",
     note=TB + "Offset::resolve is trusted (Fixed(s) -> s; Local -> arbitrary value in range per call); Offset::from_seconds/from_hms/resolve_hms are under C15's unit; formatted fields are outside (C11).", ref="5 C10"),
+ 'C18': dict(
+    text="Verus proves TimeZone::to_local_time_type(ts).utoff == tz_offset(tz, ts), the RFC 8536 reading written from the property: the type of "
+         "the latest transition at or before ts (sorted table), and past the last transition or with none the POSIX TZ footer rule: fixed, or "
+         "std/dst switching at Jn (29 Feb never counted), n (zero-based) and Mm.w.d (w-th weekday, 5 = last) dates at their local times, in "
+         "either hemisphere; weekdays_in_month, rule_to_local_timestamp, rule_to_local_time_type under contract. The byte decoder from_tzif is "
+         "NOT covered (iterator adapters and text footer are outside Verus; a bounded Kani harness did not finish in 15 min).",
+    note=TB + "holds for timestamps whose UTC year is within +-5_879_500 (rule dates of the first/last representable years are not constructible); the decode half (bytes -> tables/rule) is unverified; derive(Clone) on LocalTimeType modelled field-wise.", ref="5 C18"),
+ 'C19': dict(
+    text="Verus proves (1) validate() returns Ok exactly on data satisfying tz_wf (every transition's type index has a type, types non-empty "
+         "whenever a lookup can index them, rule months 1..=12, weeks 1..=5, days 0..=6, J 1..=365, n 0..=364), for tables of any length; (2) under "
+         "tz_wf every index, unwrap, subtraction and conversion in to_local_time_type and the rule functions is safe for every timestamp in "
+         "range (no precondition on sortedness). from_tzif ends in validate()? so nothing it returns violates tz_wf. NOT covered: panic-freedom "
+         "of the byte/footer parser itself before that point (Cursor, Header, DataBlock, from_tz_string).",
+    note=TB + "lookups are proved for timestamps whose UTC year is within +-5_879_500; that from_tzif calls validate on every Ok path is by reading its last statements (the function is outside Verus); Offset::resolve's fallback is outside (cfg(unix), fs).", ref="5 C19"),
  'C15': dict(
     text="Verus proves Ok iff valid and Err(OutOfRange) with value == offending argument outside [min,max] for validate_date/doy/time, "
          "time_to_day_seconds, tm::set_*, Time::from_hms/from_seconds/from_nanos, DateTime/Date::from_ymd(hms), all set_* on the three types, "
